@@ -46,6 +46,13 @@ def jobs(tier, seed):
     for solver in ("vi", "pi", "rvi", "pvi", "savi"):
         out.append(dict(name=f"nonfinite-{solver}", kind="nonfinite", solver=solver, devices=1, seed=seed, cost=20))
         out.append(dict(name=f"config-presence-{solver}", kind="cfgpresence", solver=solver, devices=1, seed=seed, cost=20))
+    # a KeyboardInterrupt arriving in the j-th sweep of a call (["int", k, j]): whatever is on disk afterwards is still labelled
+    # with, and contains, the state of a completed iteration
+    for solver in (("vi", "rvi") if tier == "quick" else ("vi", "pi", "rvi", "pvi", "savi")):
+        for (f, m) in ((1, 2), (2, 2)):
+            for seq in ([["int", 3, 2]], [2, ["int", 2, 1]], [["int", 2, 2], 2]):
+                out.append(dict(name=f"{solver}-f{f}-m{m}-sync-interrupt-{'+'.join(str(x) if isinstance(x, int) else 'int%d@%d' % (x[1], x[2]) for x in seq)}", kind="cadence",
+                                solver=solver, f=f, m=m, async_=False, seq=seq, problem="forest", devices=1, seed=seed, cost=6))
     seqs = [[3], [2, 2], [2, "same", 2], [1, "new", 3]] if tier == "quick" else \
         [[1], [2], [3], [1, 1], [2, 2], [3, 1], [1, 3], [2, "same", 2], [3, "same", 1], [1, "new", 3], [2, "new", 2], [1, "same", 1, "new", 2]]
     combos = [(1, 1), (2, 1), (2, 2), (3, 2), (2, 3)] if tier == "quick" else [(f, m) for f in (1, 2, 3) for m in (1, 2, 3)]
@@ -205,7 +212,7 @@ def scenario(job, dirs):
             s.gain = lift(V0.val[ckkit.NS - 1])
         if name == "pvi":
             s.value_history[0] = V0
-    total = sum(x for x in job["seq"] if isinstance(x, int))
+    total = sum(x if isinstance(x, int) else (x[2] - 1 if isinstance(x, (list, tuple)) else 0) for x in job["seq"])
     # uninterrupted reference without checkpointing, one iteration at a time
     ref = ckkit.make_solver(name, ckkit.make_problem(job["problem"], job.get("seed", 0)))
     init(ref)
@@ -230,16 +237,50 @@ def scenario(job, dirs):
             ab.attach(s, name, "run")
             continue
         start = s.iteration
+        if isinstance(x, (list, tuple)):
+            ist = interrupt_at(s, x[2])
+            try:
+                s.solve(x[1])
+                aborted = False
+            except KeyboardInterrupt:
+                aborted = True
+            del s._iteration_step
+            if not ist["fired"]:       # the call converged before the sweep that was to be interrupted
+                calls.append((cur, start, s.iteration))
+                continue
+            # in memory the counter has been advanced for the sweep that never completed; what matters is the directory
+            end = start + x[2] - 1
+            calls.append((cur, start, end, "aborted" if aborted else "not-aborted"))
+            s.iteration = end
+            continue
         s.solve(x)
         calls.append((cur, start, s.iteration))
     s.checkpoint_manager.wait_until_finished()
-    last = s.iteration
+    stores = {k: dict(v["committed"]) for k, v in om.Store.dirs.items()}
+    # reference states for every completed iteration and for every label found on disk (a label beyond the completed
+    # iterations is compared with the state that iteration would have)
+    last = max([c[2] for c in calls] + [int(st_) for v in stores.values() for st_ in v])
     while ref.iteration < last:
         ref.solve(1)
         refstates[ref.iteration] = ckkit.state_of(ref)
-    stores = {k: dict(v["committed"]) for k, v in om.Store.dirs.items()}
     return dict(calls=calls, stores=stores, ref=refstates, config={k: os.path.exists(os.path.join(k, "config.yaml")) for k in stores},
                 has_full_config=s.has_full_config, V0=val_of(V0))
+
+
+def interrupt_at(s, j):
+    """the j-th sweep of the next solve() call is interrupted (KeyboardInterrupt raised where the sweep starts)"""
+    orig = s._iteration_step
+    n = [0]
+    st = {"fired": False}
+
+    def step(*a, **k):
+        n[0] += 1
+        if n[0] == j:
+            st["fired"] = True
+            raise KeyboardInterrupt()
+        return orig(*a, **k)
+    s._iteration_step = step
+    return st
 
 
 def run_cadence(job, ob):
@@ -270,15 +311,22 @@ def run_cadence(job, ob):
         cex = lambda mm, r=r: dict(kind="cadence", calls=[[c[1], c[2]] for c in r["calls"]], retained={k: sorted(v) for k, v in r["stores"].items()})
         # expected steps per directory
         expect = {}
-        for (d, start, end) in r["calls"]:
-            expect.setdefault(d, set()).update({i for i in range(start + 1, end + 1) if i % f == 0} | {end})
+        for call in r["calls"]:
+            d, start, end = call[:3]
+            if len(call) > 3:   # interrupted call: the periodic saves of its completed sweeps, no final save
+                ob.prove(f"interrupt-propagates[path{pi_}]", [], call[3] == "aborted", cex=cex, kind="KeyboardInterrupt is not swallowed")
+                expect.setdefault(d, set()).update({i for i in range(start + 1, end + 1) if i % f == 0})
+            else:
+                expect.setdefault(d, set()).update({i for i in range(start + 1, end + 1) if i % f == 0} | {end})
         for d, steps in expect.items():
             retained = sorted(r["stores"].get(d, {}))
             want = sorted(steps)[-m:]
             ob.prove(f"retained==m-most-recent[path{pi_}]", [], retained == want, cex=cex,
                      kind="retained steps == the m most recent of {multiples of f} U {last iteration of each call}")
-            ob.prove(f"last-iteration-retained[path{pi_}]", [], max(e for (dd, s_, e) in r["calls"] if dd == d) in retained, cex=cex,
-                     kind="last iteration of the most recent call is retained")
+            completed = [c for c in r["calls"] if c[0] == d and len(c) == 3]
+            if completed and len(r["calls"][-1]) == 3:
+                ob.prove(f"last-iteration-retained[path{pi_}]", [], max(c[2] for c in completed) in retained, cex=cex,
+                         kind="last iteration of the most recent call is retained")
             ob.prove(f"config-file-iff-reconstructible[path{pi_}]", [], r["config"].get(d, False) == (job["problem"] == "forest") == r["has_full_config"], cex=cex,
                      kind="config.yaml present exactly when solver+problem are reconstructible from configuration")
             for step in retained:
@@ -351,8 +399,9 @@ def replay(data):
         return ok2, (msg2 + " [schedule: background commits delayed by 0.25 s]" if ok2 else msg1)
     name, f, m = job["solver"], job["f"], job["m"]
     # convergence pattern of the counterexample path: a call that ended before its limit ended by convergence
-    limits = [x for x in job["seq"] if isinstance(x, int)]
-    conv_at = {int(e) for (st, e), k in zip(c.get("calls", []), limits) if int(e) - int(st) < k}
+    limits = [x if isinstance(x, int) else x[1] for x in job["seq"] if not isinstance(x, str)]
+    intr = [not isinstance(x, int) for x in job["seq"] if not isinstance(x, str)]
+    conv_at = {int(e) for (st, e), k, ii in zip(c.get("calls", []), limits, intr) if int(e) - int(st) < k and not ii}
     dirs = ckkit.TempDirs()
     try:
         d = dirs.new()
@@ -367,9 +416,9 @@ def replay(data):
             s._update_values = upd
             if name == "pi":
                 s._calculate_policy_values = lambda policy, values, s=s: jnp.asarray(np.asarray(values) * 0.5 + s.iteration)
-                s._extract_policy = lambda s=s: (s.policy if s.iteration in conv_at else (jnp.asarray(s.policy) + 1) % 2)
+                s._extract_policy = lambda *a, s=s, **k: (s.policy if s.iteration in conv_at else (jnp.asarray(s.policy) + 1) % 2)
             else:
-                s._extract_policy = lambda: jnp.zeros((ckkit.NS, 1), dtype=jnp.int32)
+                s._extract_policy = lambda *a, **k: jnp.zeros((ckkit.NS, 1), dtype=jnp.int32)
         force(s)
         calls, cur = [], d
         for x in job["seq"]:
@@ -385,13 +434,35 @@ def replay(data):
                 force(s)
                 continue
             start = s.iteration
+            if isinstance(x, (list, tuple)):
+                ist = interrupt_at(s, x[2])
+                try:
+                    s.solve(x[1])
+                    swallowed = True
+                except KeyboardInterrupt:
+                    swallowed = False
+                del s._iteration_step
+                s.checkpoint_manager.wait_until_finished()
+                if not ist["fired"]:
+                    calls.append((cur, start, s.iteration))
+                    continue
+                end = start + x[2] - 1
+                calls.append((cur, start, end, swallowed))
+                s.iteration = end
+                continue
             s.solve(x)
             calls.append((cur, start, s.iteration))
         s.checkpoint_manager.wait_until_finished()
         bad = []
         expect = {}
-        for (dd, start, end) in calls:
-            expect.setdefault(dd, set()).update({i for i in range(start + 1, end + 1) if i % f == 0} | {end})
+        for call in calls:
+            dd, start, end = call[:3]
+            if len(call) > 3:
+                if call[3]:
+                    bad.append("KeyboardInterrupt swallowed")
+                expect.setdefault(dd, set()).update({i for i in range(start + 1, end + 1) if i % f == 0})
+            else:
+                expect.setdefault(dd, set()).update({i for i in range(start + 1, end + 1) if i % f == 0} | {end})
         for dd, steps in expect.items():
             got = sorted(int(p) for p in os.listdir(dd) if p.isdigit())
             want = sorted(steps)[-m:]
@@ -404,6 +475,6 @@ def replay(data):
                 chk.load_checkpoint(dd, step=step)
                 if chk.iteration != step:
                     bad.append(f"step {step} holds iteration {chk.iteration}")
-        return bool(bad), f"{name} f={f} m={m} calls {[(a, b) for (_, a, b) in calls]}: " + ("; ".join(bad) or "as documented")
+        return bool(bad), f"{name} f={f} m={m} calls {[tuple(cl[1:]) for cl in calls]}: " + ("; ".join(bad) or "as documented")
     finally:
         dirs.cleanup()
